@@ -40,7 +40,8 @@ static uint64_t secD(int tier) { (void)tier; return (uint64_t)NPLANT * (NDC + NP
 /* long: base lengths x scripts x configs */
 static const int LONGLEN[] = {480, 495, 499, 500, 501, 505, 520, 1000, 1050, 1100};
 #define NLONGSCRIPT 6
-static uint64_t secE(int tier) { (void)tier; return (uint64_t)10 * NLONGSCRIPT * 4; }
+#define NLONGCFG 7
+static uint64_t secE(int tier) { (void)tier; return (uint64_t)10 * NLONGSCRIPT * NLONGCFG; }
 
 uint64_t vh_total(int tier)
 {
@@ -162,17 +163,18 @@ static void decode(uint64_t id, int tier, struct pcase* p)
         id -= secD(tier);
         {
                 /* long: base of length LONGLEN; b = base with a script of edits */
-                int ci = (int)(id % 4);
-                uint64_t x = id / 4;
+                int ci = (int)(id % NLONGCFG);
+                uint64_t x = id / NLONGCFG;
                 int script = (int)(x % NLONGSCRIPT);
                 int len = LONGLEN[x / NLONGSCRIPT];
-                static const struct cfg LC[4] = {{KALIGN_TYPE_DNA, -1, -1, -1}, {KALIGN_TYPE_DNA_INTERNAL, -1, -1, -1}, {KALIGN_TYPE_DNA, 3, 3, 3}, {KALIGN_TYPE_PROTEIN, -1, -1, -1}};
+                static const struct cfg LC[NLONGCFG] = {{KALIGN_TYPE_DNA, -1, -1, -1}, {KALIGN_TYPE_DNA_INTERNAL, -1, -1, -1}, {KALIGN_TYPE_DNA, 3, 3, 3}, {KALIGN_TYPE_PROTEIN, -1, -1, -1},
+                                                    {KALIGN_TYPE_DNA, 1, 7, 3}, {KALIGN_TYPE_DNA_INTERNAL, 0.5f, 2, 1}, {KALIGN_TYPE_PROTEIN, 1, 3, 1}};
                 uint64_t st = 9001 + (uint64_t)len * 13 + (uint64_t)vh_seed;
                 char* a = malloc((size_t)len + 64);
                 char* b = malloc((size_t)len + 64);
                 int i, o = 0;
                 p->c = LC[ci];
-                p->protein = ci == 3;
+                p->protein = (ci == 3 || ci == 6);
                 sh_random_seq(&st, p->protein ? "LKWAVDEGSTPQ" : "ACGT", len, a);
                 for(i = 0; i < len; i++){
                         int at1 = len / 3, at2 = 2 * len / 3, atm = len / 2;
@@ -288,7 +290,9 @@ int vh_case(uint64_t id, int tier)
                 alarm(120);
         }
         g_certify(&g, 0.0, &cert);
-        delta = g.gpo + 1.0 + 0.01 * (double)(n + m) + 1e-5 * fabs(cert.s_lo);
+        /* the centre-preference term of the meetup is at most len_b/2000 at the level where two alignments first diverge
+           (the f+b values compared there are exact DP values); 0.004 (n+m) is more than 8 times that */
+        delta = g.gpo + 1.0 + 0.004 * (double)(n + m) + 1e-5 * fabs(cert.s_lo);
         cert.certified = cert.representable && cert.margin > delta;
         /* the detected kind must be the intended one, else the configuration is not the one certified */
         if(cert.certified){
